@@ -76,7 +76,7 @@ class Observer(object):
             return r
 
         def update_market_value_of_asset(pf, asset, current_price, current_dt):
-            held = asset in pf.pos_handler.positions
+            held = asset in pf.portfolio_to_dict()
             r = o_mark(pf, asset, current_price, current_dt)
             if held:
                 obs.marks.append(dict(pid=pf.portfolio_id, asset=asset, px=current_price, t=current_dt))
@@ -215,8 +215,7 @@ def project_broker(b, oid_of, UNKNOWN="__no_such_portfolio__"):
             p["trp"][pid], p["tup"][pid], p["ttp"][pid] = mil(fl["trp"][pid]), mil(fl["tup"][pid]), mil(fl["ttp"][pid])
             p["hist"][pid] = [dict(kind=h.type, t=minutes(h.dt), debit=mil(h.debit), credit=mil(h.credit),
                                    bal=mil(h.balance)) for h in pf.history]
-            p["queue"][pid] = [[oid_of.get(o.order_id, 0), o.asset, int(o.quantity)]
-                               for o in list(b.open_orders[pid].queue)]
+            p["queue"][pid] = [[oid_of.get(o.order_id, 0), o.asset, int(o.quantity)] for o in _pending(b.open_orders[pid])]
         p["acctEq"] = _total(b.get_account_total_equity, p["teq"])
         p["acctMv"] = _total(b.get_account_total_market_value, p["tmv"])
         p["unk"] = dict(cash=_cls(lambda: b.get_portfolio_cash_balance(UNKNOWN)),
@@ -240,6 +239,13 @@ def _total(getter, per_pf):
         if per != per_pf:
             return "ERR:per-portfolio-mismatch"
         return mil(d["master"])
+
+
+def _pending(q):
+    """the pending orders of one portfolio, oldest first, without consuming them (queue.Queue or any sequence)"""
+    if hasattr(q, "queue"):
+        return list(q.queue)
+    return list(q)
 
 
 def _int(x):
